@@ -1,11 +1,20 @@
 PROPERTY = "C15"
 LEVEL = "proof"
-LEAN_MODULES = ["CifModel.Props.C15", "CifModel.Props.ReviewC15"]
+LEAN_MODULES = ["CifModel.Props.C15", "CifModel.Props.ReviewC15", "CifModel.Props.C15Layout", "CifModel.Props.C15Dup", "CifModel.Props.C15Events"]
 REQUIRED = ["CifModel.C15_skip_depth_balanced", "CifModel.C15_skip_depth_nonneg", "CifModel.C15_skip_depth_cif", "CifModel.C15_stop_is_last", "CifModel.C15_end_ok", "CifModel.C15_positive_aborts", "CifModel.C15_skip_opens_region", "CifModel.C15_skipped_region_silent", "CifModel.C15_syntax_only_same_log", "CifModel.C15_value_mirror", "CifModel.C15_all_continue_mirror", "CifModel.C15_all_continue_mirror_parseCB", "CifModel.C15_stored_is_structural", "CifModel.C15_skip_semantics_rest", "CifModel.C15_unfiltered_is_denote", "CifModel.C15_result_nonneg", "CifModel.C15_positive_aborts_local",
             "CifModel.C15_loop_start_local", "CifModel.C15_cex_loop_start_pinned", "CifModel.C15_loop_start_code_returned",
             "CifModel.C15_stored_is_structural_any", "CifModel.C15_stop_semantics_store", "CifModel.C15_cut_extends_pruned",
             "CifModel.C15_dup_all_continue_mirror", "CifModel.C15_events_sublist", "CifModel.C15_denote_is_grammar_denote",
-            "CifModel.C15_all_continue_stores_grammar_denote", "CifModel.C15_ws_reported_in_order"]
+            "CifModel.C15_all_continue_stores_grammar_denote", "CifModel.C15_ws_reported_in_order",
+            "CifModel.C15_layout_independent", "CifModel.C15_layout_free", "CifModel.C15_layout_callbacks",
+            "CifModel.C15_layout_callbacks_doc", "CifModel.C15_layout_all_continue", "CifModel.C15_layout_all_continue_mirror",
+            "CifModel.C15_layout_stop_semantics", "CifModel.C15_layout_rendered",
+            "CifModel.C15_dup_structural_any", "CifModel.C15_dup_header_dropped_column", "CifModel.C15_dup_layout",
+            "CifModel.C15_start_only_callbacks", "CifModel.C15_start_only_callbacks_layout",
+            "CifModel.C15_dup_is_plain_without_duplicates", "CifModel.C15_dup_stop_semantics_without_duplicates",
+            "CifModel.C15_dup_stop_semantics_store", "CifModel.C15_dup_cut_extends_mirror", "CifModel.C15_dup_events_sublist",
+            "CifModel.C15_callbacks_formula", "CifModel.C15_callbacks_formula_layout",
+            "CifModel.C15_rec_is_dup_on_wellformed", "CifModel.C15_rec_is_dup_on_wellformed_layout"]
 GEN = ["ErrCodes"]
 FAMILIES = ["pcb"]
 TRUSTED_BASE = [
@@ -16,53 +25,84 @@ TRUSTED_BASE = [
     "(checked on every run by the `pcb` correspondence family in storing and syntax-only mode, under ASan+UBSan)",
     "tools/gen/pcb.py: the renderer (abstract document -> text + token sequence; the lexer itself is another group's "
     "model) and the independent implementation-level oracle; harness/x_pcb.c, harness/cifio.h",
-    "lean/CifModel/Spec/Traversal.lean part 2 (Doc, tokensOf, docEvents, denote) as the meaning of the `_full` statements",
+    "lean/CifModel/Spec/Traversal.lean parts 2-4 (Doc, tokensOf, docEvents, denote, prunedDoc, cutDoc), Spec/TraversalEvents.lean "
+    "(evDoc), Spec/TraversalDup.lean (dupEvents, dupDenote) as the meaning of the statements",
+    "lean/CifModel/Model/ParseCBDup.lean (DUP_* diagnostics) and Model/ParseCBRec.lean (token-level recoveries; the model the pcb "
+    "driver runs, cross-checked against parseCBD and parseCB on every case without the respective diagnostics)",
 ]
 ASSUMPTIONS = [
     "documents are well-formed CIF 2.0 except that block codes, frame codes and data names (scalar items, loop headers) may "
     "repeat (same or ASCII-case-variant spelling): the DUP_* diagnostics with an error callback that accepts are modelled "
     "(Model/ParseCBDup.lean: parseCBD, run by the pcb driver and cross-checked there against parseCB on every case without a "
-    "diagnostic); for any other defect the model stops with MALFORMED (error recovery is property C12); a loop header that "
-    "loses ALL its names is outside",
+    "diagnostic); the recovery paths on which handler code runs — CIF_PARTIAL_PACKET (packet_end of the filled packet / pop of "
+    "the skip depth), CIF_EMPTY_LOOP, CIF_NULL_LOOP (loop_end with a NULL loop, no loop_start), CIF_MISSING_VALUE (item handler "
+    "with a synthetic unknown value), CIF_UNEXPECTED_VALUE, stray closing delimiters — are modelled in a third layer "
+    "(Model/ParseCBRec.lean: parseCBR, the model the pcb driver runs; cross-checked there against parseCBD on every case "
+    "without such a diagnostic) and covered by correspondence + oracle only, no theorem; for any other defect the model stops "
+    "with MALFORMED (error recovery is property C12); a loop header that loses ALL its names is outside",
     "handlers do not modify the CIF under construction",
     "default parse options (max_frame_depth clamps to 1: one level of save frames)",
 ]
 PARTIAL = [
-    "the document-level theorems (C15_all_continue_mirror, C15_stored_is_structural(_any), C15_skip_semantics_rest, "
-    "C15_stop_semantics_store, C15_events_sublist) are about the LAYOUT-FREE token sequence tokensOf d of a well-formed, "
-    "duplicate-free abstract document (wfDocN norm d, any normalisation norm; with duplicates: parseCBD, "
-    "C15_dup_all_continue_mirror).  Whitespace / comment callbacks: proved per token only (C15_ws_reported_in_order: "
-    "next_token reports the layout in front of a token in order, comments always, whitespace unless skipping, once); their "
-    "order across a whole document and the independence of everything else from layout are NOT theorems — they are checked "
-    "by the correspondence run (the oracle compares the concatenated whitespace callbacks with the document's layout, all "
-    "layouts of the renderer)",
-    "the store is characterised for EVERY program (C15_stop_semantics_store: pruned and cut at the stopping answer, cutDoc) "
-    "and agrees with the independent Spec/Grammar denotation (C15_denote_is_grammar_denote); the callback LOG at document "
-    "level is characterised exactly for all-continue programs (= docEvents) and for every program as a sublist of docEvents "
-    "in document order (C15_events_sublist); which callbacks are left out is said through the structural interpreter xDoc "
-    "(C15_stored_is_structural_any) and the region theorems, not by a closed declarative formula",
+    "layout: PROVED (Props/C15Layout.lean) for ALL token sequences, all programs, both modes — two token sequences that differ "
+    "only in the whitespace runs / comments in front of their tokens give the same result, the same stored CIF and the same "
+    "handler / data-name / keyword (and error) callbacks in the same order (C15_layout_independent, C15_layout_free; C15_dup_layout "
+    "for the model with the duplicate diagnostics), and the whitespace callbacks are, in order, the layout of a prefix of the "
+    "tokens (each token once): every comment, and every whitespace run unless the token was scanned inside a skipped region — the "
+    "same tokens whatever the layout (C15_layout_callbacks); for a well-formed document under a program that never stops every "
+    "token's layout is visited (C15_layout_callbacks_doc), with all-continue handlers the callbacks are the whole layout "
+    "(C15_layout_all_continue), in the terms of Spec/Grammar's printer the concatenated callback texts are the separators l 0, "
+    "l 1, … of render d l (C15_layout_rendered); all document-level theorems hold with any layout "
+    "(C15_layout_all_continue_mirror, C15_layout_stop_semantics, C15_start_only_callbacks_layout).  NOT a theorem: that the "
+    "scanner turns the characters of render d l into these tokens WITH this layout attached (Tok.pre): the lexer model of C01 "
+    "(C01_feeds) has no whitespace callback; the tie is the correspondence run (the pcb renderer produces text and tokens with "
+    "layout; the oracle now checks the whitespace callbacks under skipping / stopping programs too: layout of a token prefix, "
+    "comments always, whitespace all-or-nothing per token).  C15_layout_rendered assumes that no table of the document repeats a "
+    "key (decidable hypothesis hlen)",
+    "which callbacks are delivered: for EVERY handler program (any callback answering CONTINUE, SKIP_CURRENT, SKIP_SIBLINGS, END or "
+    "an error code), every well-formed duplicate-free document, both modes, any layout: exactly the formula gDoc over the "
+    "document tree, and the return value is its second component (Spec/TraversalEventsAll.lean, C15_callbacks_formula; the only "
+    "state of the formula is the number of handler callbacks delivered); special cases: docEvents for all-continue programs, "
+    "evDoc for programs steering from the start callbacks only (C15_start_only_callbacks); the STORE for every program: "
+    "C15_stop_semantics_store (cutDoc).  Documents WITH duplicates: see below",
     "C15_syntax_only_same_log assumes a handler program that does not look at the (NULL in syntax-only mode) handles and that "
     "the storing parse does not stop on a frame-nesting diagnostic (input not well-formed under the options)",
-    "duplicate block/frame codes and data names (DUP_* diagnostics, accepting error callback): modelled (parseCBD), covered "
-    "by the correspondence run with an oracle that restates the recovery (reopen the existing block/frame: its handle goes to "
-    "the handlers, its content is what later names are checked against and added to; a duplicate scalar gets its data-name "
-    "callback and the error callback but no item handler and is not stored; a duplicate loop-header name is dropped from "
-    "loop_start / the loop, its values are parsed without item handler; header names are checked against the container "
-    "even while skipping, against the header itself even without a container) and, for all-continue handlers and documents "
-    "whose loop headers repeat nothing, by the theorem C15_dup_all_continue_mirror (callbacks = dupEvents, store = dupDenote; "
-    "Spec/TraversalDup.lean); duplicate loop-header names and duplicates under skipping / stopping programs are covered by the "
-    "model + correspondence only",
+    "duplicates (DUP_* diagnostics, accepting error callback; model parseCBD): for EVERY program and every well-formed document "
+    "with any repetition of block codes, frame codes, scalar names and loop-header names the parse is the structural "
+    "interpreter xDocD over the document tree (C15_dup_structural_any: handler steps + duplicate checks against the content "
+    "stored so far, no tokens, no fuel); on duplicate-free documents no check ever fires, for every program: parseCBD = parseCB "
+    "(C15_dup_is_plain_without_duplicates), so every document-level theorem transfers; all-continue: callbacks = dupEvents, store "
+    "= dupDenote (C15_dup_all_continue_mirror, headers without repeats); duplicate loop-header names: C15_dup_header_dropped_column "
+    "(all-continue, parse_loop level: error callback behind the data-name callback of every dropped name, loop_start / packet_end "
+    "/ stored loop with the retained names and values, NO item handler for a dropped column); the STORE and the return value for "
+    "EVERY program and any duplicates: C15_dup_stop_semantics_store (= cDocD, Spec/TraversalDupCut.lean: the document walked "
+    "threading the handler count and the content the container holds; hypothesis: the model stays in its domain, i.e. no loop "
+    "header met loses all its names); agrees with dupDenote for all-continue handlers (C15_dup_cut_extends_mirror); the CALLBACKS for every program and any "
+    "duplicates: error callbacks set aside and handles / loop payloads abstracted, a sublist of the document's callbacks in "
+    "document order (C15_dup_events_sublist).  NOT proved: an interpreter-free formula saying exactly WHICH callbacks (and "
+    "error callbacks) are delivered for documents with duplicates under skipping / stopping programs (they are given by xDocD)",
+    "recovery paths with handler code (CIF_PARTIAL_PACKET, CIF_EMPTY_LOOP, CIF_NULL_LOOP, CIF_MISSING_VALUE, "
+    "CIF_UNEXPECTED_VALUE under handler programs): model layer Model/ParseCBRec.lean (parseCBR, the model the pcb driver runs) + "
+    "correspondence + oracle; proved about it: on every well-formed document, with any layout, for every program it IS the "
+    "model of the theorems (C15_rec_is_dup_on_wellformed(_layout): no recovery path is taken; parseCBR = parseCBD), so the "
+    "correspondence run ties exactly the object of the theorems to src/parser.c; the behaviour ON the recovery paths (defective "
+    "documents) has no theorem",
 ]
-LEVEL_TEXT = ("Proof about the executable token-level model ParseCB.parseCB. For all token sequences and all handler programs: "
+LEVEL_TEXT = ("Proof about the executable token-level models ParseCB.parseCB / parseCBD. For all token sequences and all handler programs: "
               "skip_depth balance of every production, an END / error answer is the last callback and determines the result, "
-              "SKIP answers open regions that are silent and store nothing, syntax-only mode = storing mode up to handles. For "
-              "every well-formed abstract document over its token sequence: all-continue callbacks = document order events and "
-              "store = denotation; for EVERY program (skips, END, error codes) store = denotation of the document with the bypassed "
-              "sub-trees removed and cut at the stopping answer (cutDoc), return value = that answer if positive else CIF_OK. "
-              "The model is tied to src/parser.c by differential execution in storing and syntax-only mode with an independent "
-              "implementation-level oracle that restates C15.")
-LEVEL_NOTE = ("Document-level theorems are about layout-free token sequences (layout is covered by the token-sequence theorems and "
-              "the correspondence run); DUP_* diagnostics and error recovery are outside the model. F33 fixed by 43d0bb7. Trusted: "
-              "Lean kernel, model transcription (checked by correspondence), Spec/Traversal.lean (Doc, docEvents, denote, prunedDoc), "
-              "renderer/oracle in tools/gen/pcb.py, harness.")
+              "SKIP answers open regions that are silent and store nothing, syntax-only mode = storing mode up to handles, and LAYOUT "
+              "independence: whitespace runs and comments in front of the tokens change nothing but the whitespace callbacks, which follow "
+              "the layout in order (comments always, whitespace unless skipping). For every well-formed abstract document, with any layout: "
+              "all-continue callbacks = document order events and store = denotation; for EVERY program store = denotation of the document "
+              "with the bypassed sub-trees removed and cut at the stopping answer (cutDoc), return value = that answer if positive else "
+              "CIF_OK, and the delivered callbacks and the return value = the formula gDoc (every program). Duplicates (DUP_* "
+              "diagnostics): for every program the parse = the structural interpreter xDocD, store and result = cDocD; = the plain model on duplicate-free documents; "
+              "all-continue mirror incl. dropped loop columns. The models are tied to src/parser.c by differential execution in storing and "
+              "syntax-only mode with an independent implementation-level oracle that restates C15, duplicates and token-level recoveries "
+              "under handler programs included.")
+LEVEL_NOTE = ("Layout is proved at the token level (tokens carry their layout); that the scanner attaches exactly the rendered separators is "
+              "correspondence. Duplicates under skipping / stopping programs: store and result characterised (cDocD), callbacks through the structural interpreter. "
+              "Recovery paths with handler code (partial packet etc.): model layer + correspondence only. F33 fixed by 43d0bb7. Trusted: "
+              "Lean kernel, model transcription (checked by correspondence), Spec/Traversal*.lean (Doc, docEvents, denote, prunedDoc, cutDoc, "
+              "evDoc, dupEvents), renderer/oracle in tools/gen/pcb.py, harness.")
 TECHNIQUE = "Lean 4 proof (fuel induction with a boundary invariant for skip_depth) + differential correspondence with an independent oracle"
